@@ -55,12 +55,14 @@ type rcCfg struct {
 	WaitMax      time.Duration
 	PushAfterAck []string // messages "topic:payload:qos" the broker pushes after every accepting CONNACK
 	HandlerPhase byte     // 0: no handler; 'B' before Connect; 'C' after Connect
+	AfterConnect func(r *rcRun) // called by the main task right after Connect returned successfully
 }
 
 type rcState struct {
 	Conn  int
 	State mqtt.ConnState
 	Err   error
+	T     int64
 }
 
 type rcRun struct {
@@ -172,7 +174,7 @@ func rcExecuteInto(cfg *rcCfg, out **rcRun) *rcRun {
 		id := conn.ID
 		var b *mqtt.BaseClient
 		b = &mqtt.BaseClient{Transport: conn, ConnState: func(s mqtt.ConnState, err error) {
-			r.states = append(r.states, rcState{id, s, err})
+			r.states = append(r.states, rcState{id, s, err, vrt.Now()})
 			r.ev(fmt.Sprintf("state %d %v", id, s))
 			if vrt.Tracing() {
 				vrt.Tracef("   connstate c%d: %v (%v)", id, s, err)
@@ -245,6 +247,9 @@ func rcExecuteInto(cfg *rcCfg, out **rcRun) *rcRun {
 	r.connectOK = r.connErr == nil
 	if cfg.HandlerPhase == 'C' {
 		rc.Handle(h)
+	}
+	if cfg.AfterConnect != nil && r.connectOK {
+		cfg.AfterConnect(r)
 	}
 	vrt.Quiesce()
 	return r
